@@ -1,2 +1,2 @@
 """Checks that are finished and registered in MANIFEST.json."""
-REGISTERED = ['C03', 'C05', 'C06', 'C07', 'C17', 'C19', 'C20']
+REGISTERED = ['C03', 'C04', 'C05', 'C06', 'C07', 'C17', 'C19', 'C20']
